@@ -1,5 +1,5 @@
 #!/bin/bash
 # resolve the routine conflicts of merging an agent branch: generated files and other properties' evidence
-git rm -q --cached coq/_CoqProject harness/Cargo.toml 2>/dev/null
+git rm -q coq/_CoqProject harness/Cargo.toml 2>/dev/null; git rm -q --cached coq/_CoqProject harness/Cargo.toml 2>/dev/null
 for f in $(git status --short | grep -E "^(UU|AA) evidence/" | awk '{print $2}'); do git checkout --ours $f; git add $f; done
 git diff --name-only --diff-filter=U
